@@ -2281,22 +2281,26 @@ fn main() {
 	} else if thorough {
 		(15, 3_000_000, 1024, 320, 20, 13, 512, 3000)
 	} else {
-		(11, 400_000, 256, 48, 17, 10, 128, 300)
+		(11, 250_000, 256, 48, 17, 10, 128, 300)
 	};
 	let nl = 1usize << nl_bits;
 	let scale = if san { 3.0 } else { 1.0 }; // sanitizer builds are slow; workloads are 1/10
+	// per-section caps (against hangs / overload), all bounded by a global cap
 	let (bud_a, bud_b, bud_c1, bud_c2, bud_c3, bud_d) = if thorough {
-		(120.0, 150.0, 60.0, 60.0, 180.0, 240.0)
+		(200.0, 250.0, 100.0, 100.0, 250.0, 400.0)
 	} else {
 		(
+			30.0 * scale,
+			40.0 * scale,
 			15.0 * scale,
 			15.0 * scale,
-			8.0 * scale,
-			10.0 * scale,
-			20.0 * scale,
-			20.0 * scale,
+			30.0 * scale,
+			30.0 * scale,
 		)
 	};
+	let global_cap = if thorough { 640.0 } else { 75.0 * scale };
+	let started = Instant::now();
+	let cap = move |b: f64| -> f64 { b.min((global_cap - started.elapsed().as_secs_f64()).max(1.0)) };
 
 	run.set_rule(
 		"R: RefMMR (explicit node table built by the definition) cross-checked against brute force and a u128 closed form. \
@@ -2332,7 +2336,7 @@ fn main() {
 	let tb = Table::build(2 * nl, &mut prng.fork(1));
 	section_r(&run, &tb);
 	if INCONC.load(Ordering::Relaxed) == 0 && run.counter("ref_selfcheck.mismatches") == 0 {
-		section_a(&run, &tb, seed, bud_a);
+		section_a(&run, &tb, seed, cap(bud_a));
 	}
 	drop(tb);
 	eprintln!("[C07] R+A done at {:.1}s", t0.elapsed().as_secs_f64());
@@ -2340,13 +2344,13 @@ fn main() {
 	// ---- B
 	run.sample(json!({"section": "B", "arg": u64::MAX, "reference": {"height": r_height(u64::MAX as u128),
 		"leaves_below": r_leaves_below(u64::MAX as u128).to_string(), "valid_size": r_is_valid_size(u64::MAX as u128)}}));
-	section_b(&run, seed, b_random, bud_b);
+	section_b(&run, seed, b_random, cap(bud_b));
 	eprintln!("[C07] B done at {:.1}s", t0.elapsed().as_secs_f64());
 
 	// ---- C
-	section_c1(&run, seed, nl, bud_c1);
+	section_c1(&run, seed, nl, cap(bud_c1));
 	eprintln!("[C07] C1 done at {:.1}s", t0.elapsed().as_secs_f64());
-	section_c2(&run, seed, c2_leaves, c2_programs, bud_c2);
+	section_c2(&run, seed, c2_leaves, c2_programs, cap(bud_c2));
 	eprintln!("[C07] C2 done at {:.1}s", t0.elapsed().as_secs_f64());
 	let mut targets: Vec<usize> = vec![
 		1usize << c3_hi_bits,
@@ -2354,16 +2358,16 @@ fn main() {
 		(1usize << (c3_hi_bits - 1)) + 1,
 	];
 	let mut p3 = prng.fork(3);
-	let n_targets = if san { 4 } else { 16 };
+	let n_targets = if san { 4 } else if thorough { 32 } else { 16 };
 	while targets.len() < n_targets {
 		targets.push(log_uniform(&mut p3, c3_lo_bits, c3_hi_bits));
 	}
-	section_c3(&run, seed, &targets, bud_c3);
+	section_c3(&run, seed, &targets, cap(bud_c3));
 	eprintln!("[C07] C3 done at {:.1}s", t0.elapsed().as_secs_f64());
 
 	// ---- D
 	let d_sizes: Vec<usize> = (1..=d_leaves).collect();
-	section_d(&run, seed, d_leaves, &d_sizes, bud_d);
+	section_d(&run, seed, d_leaves, &d_sizes, cap(bud_d));
 	eprintln!("[C07] D done at {:.1}s", t0.elapsed().as_secs_f64());
 
 	// ---- E
